@@ -417,7 +417,7 @@ func baseCase(t *rapid.T) Case {
 		gc := gen.GenGraph(t, gen.GraphOpts{MaxTypes: 4, Recursion: true}, "g")
 		st := gen.DefaultStyle()
 		st.MultiLine = rapid.IntRange(0, 2).Draw(t, "multi") == 0
-		st.Comments = rapid.IntRange(0, 3).Draw(t, "comments")
+		st.Comments = rapid.IntRange(0, 4).Draw(t, "comments")
 		pg := gc.Print(st)
 		c.Schema, c.Opt = pg.Schema, gc.G.KeysOptional
 		for _, ty := range pg.Types {
